@@ -381,7 +381,9 @@ def finish(res, level="proof", checker_cmd="lake build && lake env lean Audit_<i
 def conc_shard(binp, mode, acceptor, seed, first, runs, extra, tmpdir, idx):
     monp = os.path.join(tmpdir, f"mon_{mode}_{idx}_{first}.txt")
     cmd = [binp, mode, "-seed", str(seed), "-first", str(first), "-runs", str(runs), "-mon", monp, *extra]
-    h = subprocess.Popen(cmd, stdout=subprocess.PIPE, stderr=subprocess.PIPE)
+    # (an edited working tree can make the real code block for ever, e.g. on a lock the cooperative scheduler knows nothing about:
+    # the harness is killed after a generous time limit and the shard is reported as crashed)
+    h = subprocess.Popen(["timeout", "-s", "KILL", str(max(900, runs // 4)), *cmd], stdout=subprocess.PIPE, stderr=subprocess.PIPE)
     if acceptor:
         m = subprocess.Popen([MODEL_BIN, acceptor], stdin=h.stdout, stdout=subprocess.PIPE, stderr=subprocess.PIPE, text=True)
         h.stdout.close()
